@@ -15,6 +15,7 @@ import (
 	"time"
 
 	"github.com/pinealctx/neptune/bytex"
+	_ "github.com/pinealctx/neptune/mpb" // linked only so that its init functions run (they could reassign bytex's error variables)
 
 	"nvharness/lib/corr"
 )
@@ -596,7 +597,16 @@ func (st *state) exec(line string) string {
 		return "bad-op"
 	}
 	reset := func() { st.checkKept(); *st = state{hits: st.hits} }
+	if len(f) == 1 && f[0] == "sentinels" {
+		return st.sentinels()
+	}
 	switch f[0] {
+	case "bigrt":
+		if len(f) != 5 {
+			break
+		}
+		reset()
+		return st.bigrt(f[1], f[2], f[3], f[4])
 	case "new":
 		if len(f) != 1 {
 			break
@@ -669,7 +679,7 @@ func (st *state) exec(line string) string {
 		st.shadow = bytex.NewReadableBufferX(st.cr.left())
 		return fmt.Sprintf("ok left=%d", len(st.cr.left()))
 	}
-	if f[0] == "new" || f[0] == "news" || f[0] == "load" || f[0] == "tload" || f[0] == "sload" {
+	if f[0] == "new" || f[0] == "news" || f[0] == "load" || f[0] == "tload" || f[0] == "sload" || f[0] == "bigrt" {
 		// ill-formed initialising line that the oracle does not recognise as one either: state unchanged
 		return "bad-op"
 	}
@@ -680,6 +690,121 @@ func (st *state) exec(line string) string {
 		return st.execStream(f)
 	}
 	return "bad-op"
+}
+
+// sentinels: the package's error variables are what the model calls empty / wrongNum / sizeLimit: non-nil, pairwise
+// distinct, distinct from io.EOF / io.ErrUnexpectedEOF, with their texts. (They are exported and assignable: another
+// package of the module could reassign them in an init function; the harness links `mpb` for that reason.)
+func (st *state) sentinels() string {
+	errs := []error{bytex.ErrByteBufferEmpty, bytex.ErrReadWrongNum, bytex.ErrSizeLimit, io.EOF, io.ErrUnexpectedEOF}
+	names := []string{"ErrByteBufferEmpty", "ErrReadWrongNum", "ErrSizeLimit", "io.EOF", "io.ErrUnexpectedEOF"}
+	distinct := true
+	for i := range errs {
+		if errs[i] == nil {
+			distinct = false
+			st.hit("sentinel-errors:nil-or-aliased", fmt.Sprintf("bytex.%s is nil: a failed read reports no error", names[i]))
+			continue
+		}
+		for j := 0; j < i; j++ {
+			if errs[j] == errs[i] {
+				distinct = false
+				st.hit("sentinel-errors:nil-or-aliased", fmt.Sprintf("%s and %s are the same error value", names[j], names[i]))
+			}
+		}
+	}
+	text := func(e error) string {
+		if e == nil {
+			return "<nil>"
+		}
+		return strings.ReplaceAll(e.Error(), " ", "_")
+	}
+	return fmt.Sprintf("empty=%s wrongNum=%s sizeLimit=%s distinct=%v", text(errs[0]), text(errs[1]), text(errs[2]), distinct)
+}
+
+// bigrt: one value of 1 MiB … 128 MiB written (followed by the marker byte 7) and read back, from the buffer or through
+// a ReaderX over uniform chunks. Monitor: the value read is the value written, the marker follows, nothing is left.
+func (st *state) bigrt(kind, seedS, nS, via string) string {
+	seed, ok1 := parseU(32, seedS)
+	n64, ok2 := parseDec(nS)
+	stream := false
+	chunk := uint64(0)
+	okVia := via == "buf"
+	if strings.HasPrefix(via, "s") {
+		chunk, okVia = parseDec(via[1:])
+		okVia = okVia && chunk >= 1024 && chunk <= 134217728
+		stream = true
+	}
+	if !ok1 || !ok2 || !okVia || (kind != "str" && kind != "raw" && kind != "lstr") || n64 < 1048577 || n64 > 134217728 {
+		return "bad-op"
+	}
+	n := int(n64)
+	data := make([]byte, n)
+	var h uint64
+	for i := range data {
+		data[i] = patByte(seed, i)
+		h = (h*31 + uint64(data[i]) + 1) % 4294967296
+	}
+	want := fmt.Sprintf("#%d:%d", n, h)
+	out, _, pan := call(func() (string, error) {
+		b := bytex.NewBufferX()
+		switch kind {
+		case "str":
+			b.WriteString(string(data))
+		case "lstr":
+			if err := b.WriteLimitString(uint32(n), string(data)); err != nil {
+				return "err:" + errName(err), nil
+			}
+		default:
+			b.Write(data)
+		}
+		b.WriteU8(7)
+		var rd reader = b
+		u8 := b.ReadU8
+		left := b.Len
+		if stream {
+			all := append([]byte{}, b.Bytes()...)
+			chunks, _ := chunking(strconv.FormatUint(chunk, 10), all)
+			cr := &chunkReader{chunks: chunks}
+			rx := bytex.NewReaderX(cr)
+			rd, u8, left = rx, rx.ReadByte, func() int { return len(cr.left()) }
+		}
+		var got string
+		var err error
+		switch kind {
+		case "str":
+			var v string
+			v, err = rd.ReadString()
+			got = showHex([]byte(v))
+		case "lstr":
+			var v string
+			v, err = rd.ReadLimitString(uint32(n))
+			got = showHex([]byte(v))
+		default:
+			var v []byte
+			v, err = rd.ReadN(n)
+			got = showHex(v)
+		}
+		if err != nil {
+			return fmt.Sprintf("err:%s left=%d", errName(err), left()), nil
+		}
+		next, err := u8()
+		if err != nil {
+			return fmt.Sprintf("v=%s next=err:%s left=%d", got, errName(err), left()), nil
+		}
+		return fmt.Sprintf("v=%s next=%d left=%d", got, next, left()), nil
+	})
+	if pan != nil {
+		st.hit("read:panic", fmt.Sprintf("bigrt %s %d: %v", kind, n, pan))
+		return "panic"
+	}
+	if out != "v="+want+" next=7 left=0" {
+		how := "the buffer"
+		if stream {
+			how = fmt.Sprintf("a stream of %d-byte chunks", chunk)
+		}
+		st.hit("roundtrip:big-"+kind, fmt.Sprintf("a %s value of %d bytes (%s) followed by the byte 7, read back from %s: %s", kind, n, want, how, out))
+	}
+	return out
 }
 
 // fresh: a buffer just made by a constructor holds nothing (the theorems start from the empty buffer).
@@ -773,6 +898,38 @@ func (st *state) execBuf(f []string) string {
 			}
 		}
 		return fmt.Sprintf("ok left=%d", len(data))
+	case "rewriteself":
+		// ReWrite(pos, Bytes()[from:to]): the payload aliases the buffer's own storage
+		if len(f) != 4 {
+			break
+		}
+		pos, ok1 := parseCount(f[1])
+		from, ok2 := parseDec(f[2])
+		to, ok3 := parseDec(f[3])
+		if !ok1 || !ok2 || !ok3 || from > to || to > uint64(b.Len()) {
+			break
+		}
+		st.forget()
+		before := append([]byte{}, b.Bytes()...)
+		_, _, pan := call(func() (string, error) {
+			b.ReWrite(pos, b.Bytes()[from:to])
+			return "", nil
+		})
+		st.clean, st.trunc = false, nil
+		after := append([]byte{}, b.Bytes()...)
+		if n := int(to - from); pos >= 0 && pos+n <= len(before) {
+			want := append([]byte{}, before...)
+			copy(want[pos:], before[from:to]) // old contents of the window
+			if pan != nil {
+				st.hit("ReWrite:panic-in-range", fmt.Sprintf("%s on %d unread bytes panicked: %v", strings.Join(f, " "), len(before), pan))
+			} else if string(want) != string(after) {
+				st.hit("ReWrite:wrong-bytes-aliasing-payload", fmt.Sprintf("ReWrite(%d, Bytes()[%d:%d]) on %s gave %s, expected %s", pos, from, to, showHex(before), showHex(after), showHex(want)))
+			}
+		}
+		if pan != nil {
+			return "panic"
+		}
+		return "ok bytes=" + showHex(after)
 	case "rewrite", "rewriteu32":
 		if len(f) != 3 {
 			break
@@ -1026,6 +1183,7 @@ func runCase(c corr.Case) corr.Result {
 	done := make(chan corr.Result, 1)
 	go func() {
 		st := &state{}
+		st.sentinels() // monitor only: the error variables are intact whatever else is linked in
 		var res corr.Result
 		for _, l := range c.Lines {
 			var out string
